@@ -23,6 +23,9 @@ _OBS_PER_3000 = {
     "kl_steps_checked": 15870, "kl_steps_checked_stir_value": 6113, "kl_steps_checked_driver": 229,
     # (6) driver
     "driver_runs": 522, "driver_kl_reports": 2678, "driver_outer_iterations_completed": 785,
+    # estimation repeated with the --print-KL reports off: the component files must hold the same numbers (per 3000 reference cases)
+    "driver_runs_repeated_without_KL_reports": 160, "driver_runs_repeated_without_KL_reports_geo_and_block": 90,
+    "driver_component_files_compared_with_and_without_KL_reports": 1200,
     # configuration classes
     "cfg_no_gaps": 1535, "cfg_gaps_transaxial": 744, "cfg_gaps_transaxial_and_axial": 721, "scanners_with_gaps": 1465,
     "cfg_max_delta_0": 594, "cfg_max_delta_partial": 699, "cfg_max_delta_full": 1707, "cfg_full_fan": 429,
